@@ -3,6 +3,7 @@ package main
 import (
 	"bufio"
 	"crypto/tls"
+	"encoding/hex"
 	"encoding/json"
 	"fmt"
 	"io"
@@ -10,6 +11,7 @@ import (
 	"net/http"
 	"net/http/httptest"
 	"net/url"
+	"sort"
 	"strings"
 	"sync"
 	"sync/atomic"
@@ -45,17 +47,33 @@ type httpOut struct {
 	Status   int       `json:"status"`
 	Location string    `json:"location"`
 	HasLoc   bool      `json:"hasloc"`
-	Hits     int64     `json:"hits"`
-	Hosts    []string  `json:"hosts"`
-	Cands    []*tgtOut `json:"cands"`
-	Upstream []bool    `json:"upstream"` // per candidate: is it the instrumented upstream
-	Denied   []bool    `json:"denied"`   // per candidate: verdict of the real AccessDeniedHTTP for this client (oracle; C12's subject)
+	Hits     int64     `json:"hits"`   // all instrumented upstreams together
+	HitsBy   []int64   `json:"hitsby"` // per instrumented upstream
+	Table    []keyOut  `json:"table"`  // the real route.Table after NewTableCustom: what the model's Lookup runs on
+	Hosts    []string  `json:"hosts"`  // hook: the host list of the real matchingHosts / matchingHostNoGlob (compared with the model's)
+	Cands    []*tgtOut `json:"cands"`  // hook: what the real lookup yields per host (compared with the model's)
 }
+
+// keyOut is one host key of the table with its routes in the table's own order.
+type keyOut struct {
+	Key    string     `json:"key"`
+	Routes []routeOut `json:"routes"`
+}
+
+type routeOut struct {
+	PathHex string  `json:"pathhex"`
+	T       *tgtOut `json:"t"`
+	Up      int     `json:"up"`     // which instrumented upstream the target is, -1: none
+	Denied  bool    `json:"denied"` // verdict of the real AccessDeniedHTTP for this client (oracle; C12's subject)
+	Targets int     `json:"targets"`
+}
+
+const nUpstreams = 4
 
 type fronts struct {
 	plain, tls *httptest.Server
-	upstream   *httptest.Server
-	hits       int64
+	upstream   [nUpstreams]*httptest.Server // route i of a case proxies to upstream i mod 4: the answer tells which route served it
+	hits       [nUpstreams]int64
 	tbl        atomic.Value // route.Table
 	noglob     atomic.Value // bool
 	cache      *route.GlobCache
@@ -145,11 +163,14 @@ var (
 func getFronts() *fronts {
 	frontOnce.Do(func() {
 		f := &fronts{cache: route.NewGlobCache(1000)}
-		f.upstream = httptest.NewServer(http.HandlerFunc(func(w http.ResponseWriter, r *http.Request) {
-			atomic.AddInt64(&f.hits, 1)
-			w.WriteHeader(200)
-			fmt.Fprint(w, "upstream")
-		}))
+		for i := range f.upstream {
+			i := i
+			f.upstream[i] = httptest.NewServer(http.HandlerFunc(func(w http.ResponseWriter, r *http.Request) {
+				atomic.AddInt64(&f.hits[i], 1)
+				w.WriteHeader(200)
+				fmt.Fprint(w, "upstream")
+			}))
+		}
 		f.tbl.Store(route.Table{})
 		f.noglob.Store(false)
 		p := &proxy.HTTPProxy{
@@ -165,10 +186,10 @@ func getFronts() *fronts {
 	return front
 }
 
-func (in *httpIn) table(up string) (route.Table, error) {
+func (in *httpIn) table(ups []string) (route.Table, error) {
 	var defs []route.RouteDef
 	seen := map[string]bool{}
-	for _, r := range in.Routes {
+	for i, r := range in.Routes {
 		// one target per route, so that the picker has no choice to make
 		if k := strings.ToLower(r.Src); seen[k] {
 			continue
@@ -177,7 +198,7 @@ func (in *httpIn) table(up string) (route.Table, error) {
 		}
 		dst := r.Tmpl
 		if dst == "UPSTREAM" {
-			dst = up
+			dst = ups[i%len(ups)]
 		}
 		defs = append(defs, route.RouteDef{Cmd: route.RouteAddCmd, Service: "svc", Src: r.Src, Dst: dst, Opts: r.opts()})
 	}
@@ -186,7 +207,19 @@ func (in *httpIn) table(up string) (route.Table, error) {
 
 func runHTTP(in httpIn) (interface{}, error) {
 	f := getFronts()
-	tbl, err := in.table(f.upstream.URL + "/")
+	var ups []string
+	for _, u := range f.upstream {
+		ups = append(ups, u.URL+"/")
+	}
+	upIndex := func(t *route.Target) int {
+		for i, u := range ups {
+			if t != nil && t.URL.String() == u {
+				return i
+			}
+		}
+		return -1
+	}
+	tbl, err := in.table(ups)
 	if err != nil {
 		return httpOut{Err: "route"}, nil
 	}
@@ -195,7 +228,9 @@ func runHTTP(in httpIn) (interface{}, error) {
 	}
 	f.tbl.Store(tbl)
 	f.noglob.Store(in.NoGlob)
-	atomic.StoreInt64(&f.hits, 0)
+	for i := range f.hits {
+		atomic.StoreInt64(&f.hits[i], 0)
+	}
 
 	var b strings.Builder
 	fmt.Fprintf(&b, "GET %s HTTP/1.1\r\nHost: %s\r\n", in.Target, in.Host)
@@ -214,8 +249,19 @@ func runHTTP(in httpIn) (interface{}, error) {
 	if err != nil {
 		return nil, err
 	}
-	out.Hits = atomic.LoadInt64(&f.hits)
-	// what Lookup had to choose from (same functions, same request shape)
+	for i := range f.hits {
+		h := atomic.LoadInt64(&f.hits[i])
+		out.HitsBy = append(out.HitsBy, h)
+		out.Hits += h
+	}
+	// the upstream's own address is an artefact of the run: blank it in the dumps
+	dump := func(t *route.Target) *tgtOut {
+		d := dumpTarget(t)
+		if d != nil && upIndex(t) >= 0 {
+			d.Host = "UPSTREAM"
+		}
+		return d
+	}
 	if out.Status != 400 {
 		u, err := url.ParseRequestURI(in.Target)
 		if err == nil {
@@ -223,19 +269,30 @@ func runHTTP(in httpIn) (interface{}, error) {
 			if in.TLS {
 				req.TLS = &tls.ConnectionState{}
 			}
+			// the table Lookup ran on (keys sorted: Go's map order is not part of the case)
+			var keys []string
+			for k := range tbl {
+				keys = append(keys, k)
+			}
+			sort.Strings(keys)
+			for _, k := range keys {
+				ko := keyOut{Key: k}
+				for _, rt := range tbl[k] {
+					ro := routeOut{PathHex: hex.EncodeToString([]byte(rt.Path)), Up: -1, Targets: len(rt.Targets)}
+					if len(rt.Targets) > 0 {
+						t := rt.Targets[0]
+						ro.T, ro.Up, ro.Denied = dump(t), upIndex(t), t.AccessDeniedHTTP(req)
+					}
+					ko.Routes = append(ko.Routes, ro)
+				}
+				out.Table = append(out.Table, ko)
+			}
+			// what the real host matching and per-host lookup give (same functions, same request shape)
 			hosts, cands := route.VerifC13Candidates(tbl, req, route.Picker["rr"], route.Matcher["prefix"], f.cache, in.NoGlob)
 			out.Hosts = hosts
 			for _, c := range cands {
-				out.Cands = append(out.Cands, dumpTarget(c))
-				out.Upstream = append(out.Upstream, c != nil && c.URL.String() == f.upstream.URL+"/")
-				out.Denied = append(out.Denied, c != nil && c.AccessDeniedHTTP(req))
+				out.Cands = append(out.Cands, dump(c))
 			}
-		}
-	}
-	// the upstream's own address is an artefact of the run: blank it in the dump
-	for i, c := range out.Cands {
-		if c != nil && out.Upstream[i] {
-			c.Host = "UPSTREAM"
 		}
 	}
 	return out, nil
@@ -244,8 +301,68 @@ func runHTTP(in httpIn) (interface{}, error) {
 var httpReqHosts = []string{"example.com", "example.com:80", "example.com:443", "EXAMPLE.com", "www.example.com", "x.com", "x.com:8080", "other.org"}
 var httpSrcHosts = []string{"example.com", "example.com:80", "example.com:443", "*.example.com", "", "x.com", "x.com:8080", "www.example.com"}
 
+// genNextHost: the situation of the property's last sentence — several host keys match one request (the name
+// with and without the default port of the connection, in upper case, a wildcard, the host-less routes), the
+// more specific ones mostly redirect to the request's own scheme and host, the others are plain routes on
+// distinguishable upstreams or redirects elsewhere.
+func genNextHost(r *hx.Rand) httpIn {
+	name := r.Pick([]string{"example.com", "www.example.com", "x.com", "a.b.example.com"})
+	in := httpIn{TLS: r.Chance(1, 2), NoGlob: r.Chance(1, 2)}
+	port := ":80"
+	if in.TLS {
+		port = ":443"
+	}
+	in.Host = name + r.Pick([]string{"", "", port, port, ":8080"})
+	if r.Chance(1, 8) {
+		in.Host = strings.ToUpper(in.Host[:1]) + in.Host[1:]
+	}
+	own := "http"
+	if in.TLS {
+		own = "https"
+	}
+	switch r.Intn(4) {
+	case 0: // TLS terminated in front of fabio (issue 448)
+		in.XFP = r.Pick([]string{"https", "http"})
+		own = in.XFP
+	case 1:
+		in.XFP = r.Pick([]string{"HTTPS", "ws", "https"})
+	}
+	path := genReqPath(r, "")
+	in.Target = strings.NewReplacer(" ", "%20", "\"", "%22", "<", "%3C", "#", "%23").Replace(path + genQuery(r))
+	keys := []string{name, name + port, name + ":8080", strings.ToUpper(name), "*." + strings.SplitN(name, ".", 2)[1], "*" + name[1:], "*" + port, ""}
+	for i := len(keys) - 1; i > 0; i-- {
+		j := r.Intn(i + 1)
+		keys[i], keys[j] = keys[j], keys[i]
+	}
+	n := 2 + r.Intn(3)
+	for i := 0; i < n; i++ {
+		ri := routeIn{Src: keys[i] + r.Pick([]string{"/", "/", "/", "/foo", "/a"})}
+		switch r.Intn(8) {
+		case 0, 1, 2: // a redirect to the request's own scheme: a self-redirect when host and path come out the same
+			ri.Tmpl = own + "://" + r.Pick([]string{"$host", "$host", in.Host, name}) + r.Pick([]string{"$path", "$path", "/$path", "/"})
+			ri.Redirect = r.Pick([]string{"301", "302", "308"})
+		case 3: // the documented http -> https redirect
+			ri.Tmpl = "https://" + r.Pick([]string{"$host", name}) + "$path"
+			ri.Redirect = "301"
+		case 4:
+			ri.Tmpl = genTmpl(r)
+			ri.Redirect = genCode(r)
+		default:
+			ri.Tmpl = "UPSTREAM"
+		}
+		if r.Chance(1, 12) {
+			genAccess(r, &ri.tgtIn)
+		}
+		in.Routes = append(in.Routes, ri)
+	}
+	return in
+}
+
 func genHTTP(r *hx.Rand) httpIn {
-	in := httpIn{Host: r.Pick(httpReqHosts), TLS: r.Chance(1, 2), NoGlob: r.Chance(1, 6)}
+	if r.Chance(1, 3) {
+		return genNextHost(r)
+	}
+	in := httpIn{Host: r.Pick(httpReqHosts), TLS: r.Chance(1, 2), NoGlob: r.Chance(1, 3)}
 	if r.Chance(1, 2) {
 		in.XFP = r.Pick([]string{"https", "http", "https", "HTTPS", "ws"})
 	}
@@ -305,6 +422,11 @@ func init() {
 		in.Target = "/x/y?q=1"
 		return in
 	}
+	nextHost := func(noglob bool, xfp string) httpIn {
+		return httpIn{Routes: []routeIn{{"example.com:80/", tgtIn{Tmpl: "https://example.com$path", Redirect: "301"}},
+			{"example.com/", tgtIn{Tmpl: "UPSTREAM"}}, {"/", tgtIn{Tmpl: "UPSTREAM"}}},
+			Host: "example.com", Target: "/app?x=1", XFP: xfp, NoGlob: noglob}
+	}
 	hx.Register(&hx.Stream{
 		Name: "c13.http",
 		Corpus: []interface{}{
@@ -312,6 +434,10 @@ func init() {
 			selfHTTP(false, ""), selfHTTP(true, ""), selfHTTP(true, "http"),
 			httpIn{Routes: []routeIn{{"*:80", tgtIn{Tmpl: "https://$host$path", Redirect: "301"}}}, Host: "c.com:80", Target: "/a%2Fb?q=1"},
 			httpIn{Routes: []routeIn{{"/", tgtIn{Tmpl: "https://$host/$path", Redirect: "302"}}}, Host: "c.com", Target: "/x", XFP: "https"},
+			// the documented http -> https redirect on the key with the default port next to the plain route of the
+			// bare name, TLS terminated in front of fabio (X-Forwarded-Proto: https): the redirect is skipped and the
+			// next matching host answers — with and without host globs
+			nextHost(false, "https"), nextHost(true, "https"), nextHost(true, ""), nextHost(false, ""),
 			// requests that would select the websocket / SSE handler, sent to a redirect route
 			httpIn{Routes: []routeIn{{"/", tgtIn{Tmpl: "https://$host$path", Redirect: "301"}}}, Host: "c.com", Target: "/ws", Upgrade: "websocket"},
 			httpIn{Routes: []routeIn{{"/", tgtIn{Tmpl: "https://$host$path", Redirect: "301"}}}, Host: "c.com", Target: "/events", Accept: "text/event-stream"},
